@@ -2,7 +2,9 @@ package main
 
 import (
 	"bytes"
+	"regexp"
 	"sort"
+	"strings"
 )
 
 // emitters are registered by emit_*.go files (one per subsystem) and run in
@@ -15,8 +17,27 @@ func emitAll(w *bytes.Buffer) {
 		names = append(names, n)
 	}
 	sort.Strings(names)
+	var all bytes.Buffer
 	for _, n := range names {
-		w.WriteString("\n(* ==== " + n + " ==== *)\n")
-		emitters[n](w)
+		all.WriteString("\n(* ==== " + n + " ==== *)\n")
+		emitters[n](&all)
+	}
+	// Several subsystems read the same table off the source (consume, n16Table ...):
+	// a one-line definition emitted twice with identical text is kept once;
+	// the same name with different text is a translator bug.
+	seen := map[string]string{}
+	for _, line := range strings.SplitAfter(all.String(), "\n") {
+		if m := oneLineDef.FindStringSubmatch(line); m != nil {
+			if old, ok := seen[m[1]]; ok {
+				if old != line {
+					fatalf("definition %s emitted twice with different bodies", m[1])
+				}
+				continue
+			}
+			seen[m[1]] = line
+		}
+		w.WriteString(line)
 	}
 }
+
+var oneLineDef = regexp.MustCompile(`^Definition ([A-Za-z0-9_']+) .*\.\s*$`)
